@@ -4,7 +4,7 @@ from fractions import Fraction
 from ..common import rng
 from ..drivers import behaviours
 from ..drivers import programs, targeted
-from ._twin import replay_programs, run_programs
+from ._twin import replay_programs, run_programs, run_suite
 
 
 def check(run, tier):
@@ -55,6 +55,9 @@ def check(run, tier):
         "volumes on an exact grid (k x unit) so that float arithmetic is exact; record lexer and projection are trusted",
         "duplicate destination positions in distribute() are not generated",
     ]
+
+    # the repository's own test-suite, recorded and judged step by step
+    run_suite(run)
 
 
 def replay(run, rp):
